@@ -902,7 +902,7 @@ def install(interp):
     a[traceback.print_exc] = _noop
     a[print] = _noop
     mmods = interp.method_models
-    for nm in ("startswith", "endswith", "find", "index", "count", "partition", "rpartition", "split", "replace",
+    for nm in ("startswith", "endswith", "find", "index", "count", "partition", "rpartition", "split", "rsplit", "replace",
                "strip", "lstrip", "rstrip", "__contains__", "__add__", "__eq__", "__ne__"):
         mmods[(str, nm)] = mm_str_method(nm)
     mmods[(str, "join")] = mm_str_join
